@@ -54,6 +54,9 @@ def run(ctx):
 
     from ..rules import allocfail
     nf = allocfail.check(ctx, fns)
+    ctx.clause("C19.6 a member released on a failure path is reset before the object is used or destroyed again (rule shared with C07.5)")
+    from ..rules import stalefield
+    ctx.count("member_release_sites", stalefield.check(ctx, [f for f in P.lib_functions() if P.rel(f.file).startswith("src/")]))
     ctx.clause("C19.5 a failed growth leaves counts and capacities unchanged (the object never claims room it does not have)")
     na = allocfail.check_atomic(ctx, fns)
     ctx.floor("C19 growth sites with a failure exit", na, 12)
